@@ -184,6 +184,48 @@ func c16AstDefect(m *ast.Module) string {
 			}
 		}
 	}
+	// checkDepTName: no user type is left unresolved at any depth (the generator picks enum or struct code by CType)
+	var unresolved func(t *ast.VarType) string
+	unresolved = func(t *ast.VarType) string {
+		if t == nil {
+			return ""
+		}
+		switch t.Type {
+		case token.Name:
+			if t.CType != token.Enum && t.CType != token.Struct {
+				return t.TypeSt
+			}
+		case token.TVector, token.TArray:
+			return unresolved(t.TypeK)
+		case token.TMap:
+			if s := unresolved(t.TypeK); s != "" {
+				return s
+			}
+			return unresolved(t.TypeV)
+		}
+		return ""
+	}
+	for _, st := range m.Struct {
+		for _, mb := range st.Mb {
+			if s := unresolved(mb.Type); s != "" {
+				return fmt.Sprintf("struct %s member %s: user type %s is not resolved to an enum or a struct", st.Name, mb.Key, s)
+			}
+		}
+	}
+	for _, it := range m.Interface {
+		for _, f := range it.Funcs {
+			for _, a := range f.Args {
+				if s := unresolved(a.Type); s != "" {
+					return fmt.Sprintf("interface %s function %s: user type %s of a parameter is not resolved", it.Name, f.Name, s)
+				}
+			}
+			if f.HasRet {
+				if s := unresolved(f.RetType); s != "" {
+					return fmt.Sprintf("interface %s function %s: user type %s of the result is not resolved", it.Name, f.Name, s)
+				}
+			}
+		}
+	}
 	return ""
 }
 
@@ -576,7 +618,11 @@ func c16Main(a Args) {
 		}
 		outcomes[c.Kind+"/"+c.Class]++
 		if rs[i].Wf != "" {
-			res.Failures = append(res.Failures, Failure{Sig: "tars2go/parse/accepts-struct-with-unordered-tags", Desc: fmt.Sprintf("parse.NewParse accepts %q but %s", c16Trunc(string(c.Input), 200), rs[i].Wf), Replay: *c})
+			sig := "tars2go/parse/accepts-struct-with-unordered-tags"
+			if strings.Contains(rs[i].Wf, "resolved") {
+				sig = "tars2go/parse/accepts-unresolved-type"
+			}
+			res.Failures = append(res.Failures, Failure{Sig: sig, Desc: fmt.Sprintf("parse.NewParse accepts %q but %s", c16Trunc(string(c.Input), 200), rs[i].Wf), Replay: *c})
 		}
 		switch c.Class {
 		case "hang":
